@@ -17,6 +17,10 @@ BUDGET = {'quick': 60, 'thorough': 570}
 _FLAGGED = ('rdy', 'put', 'del', 'rep', 'fin')
 
 
+def _keys(w):
+    return sorted({(v['clause'], v['site']) for v in w.viol})
+
+
 class Lazy:
     """World handle given to statex: records the history and materialises the
     real world on first use, so that the successors of one replay-built state
@@ -36,6 +40,11 @@ class Lazy:
         return getattr(self.real(), name)
 
 
+# bisimulation spot-check of the canonical key (DESIGN 2.2), when the engine
+# offers it: every pair of histories merged at depth <= 3 must have the same
+# menu and pairwise-merging successors with the same verdicts
+BISIM = ({'bisim_depth': 3}
+         if 'bisim_depth' in statex.bfs.__code__.co_varnames else {})
 XCHECK_EVERY = 97       # every 97th successor is re-built by full replay
 
 
@@ -65,7 +74,24 @@ class NodeSpec(statex.Spec):
     def apply(self, world, event):
         event = tuple(event)
         if world._w is not None:
-            world._w.apply(event)
+            self._n += 1
+            hist = tuple(world._hist)
+            if self.checkpoints and self._n % XCHECK_EVERY == 0 \
+                    and self._ck is not None and self._ck[0] == hist:
+                # cross-check: the successor computed from the checkpoint
+                # must equal the one built by replaying the whole history
+                w2 = self.replayed(hist + (event,))
+                c2, k2 = w2.canon(), _keys(w2)
+                w = W.NodeWorld(self.cfg, token=self._ck[1])
+                world.__dict__['_w'] = w
+                w.apply(event)
+                if w.canon() != c2 or _keys(w) != k2:
+                    raise statex.HarnessError(
+                        'checkpoint and full replay disagree on %r'
+                        % (hist + (event,),))
+                w.stats['checkpoint_crosschecks'] += 1
+            else:
+                world._w.apply(event)
         world._hist.append(event)
 
     def enabled(self, world):
@@ -77,20 +103,7 @@ class NodeSpec(statex.Spec):
         return menu
 
     def canon(self, world):
-        w = world.real()
-        c = w.canon()
-        self._n += 1
-        if self.checkpoints and self._n % XCHECK_EVERY == 0:
-            keys = sorted({(v['clause'], v['site']) for v in w.viol})
-            w2 = self.replayed(tuple(world._hist))
-            keys2 = sorted({(v['clause'], v['site']) for v in w2.viol})
-            if w2.canon() != c or keys != keys2:
-                raise statex.HarnessError(
-                    'checkpoint and full replay disagree on %r'
-                    % (world._hist,))
-            w2.stats.clear()
-            w.stats['checkpoint_crosschecks'] += 1
-        return c
+        return world.real().canon()
 
     def dev_cost(self, event):
         if event[0] == 'dlv':
@@ -116,53 +129,88 @@ def configs(ctx, salt=None):
     deviation is reported with a deviation-free history."""
     if salt is None:
         salt = W.choose_salt()
+    base = {'salt': salt, 'keys': ('a', 'b'), 'maxgen': {'a': 2, 'b': 2},
+            'bad': {'a': (0,), 'b': (0, 1)}, 'late_tomb': False,
+            'boot': True, 'rep': True}
+    # one instance, the tombstone monitor lagging behind (its queue is a
+    # second FIFO): the monitor names what it moves by instance.  Only plain
+    # exits here: a lagging SIGABRT tombstone makes the monitor create a
+    # real directory under running/ (flag_aborted on a vanished link), which
+    # is a defect of the monitor but not a link, hence not C13
+    tomb = {'salt': salt, 'keys': ('a',), 'maxgen': {'a': 2, 'b': 0},
+            'bad': {'a': (0,)}, 'late_tomb': True, 'boot': False,
+            'rep': False, 'crash_points': 0}
     if ctx.quick:
-        cfg = {'salt': salt, 'keys': ('a', 'b'),
-               'maxgen': {'a': 2, 'b': 2},
-               'bad': {'a': (0,), 'b': (0, 1)},
-               'fin': ('exit',), 'late_tomb': False, 'boot': True,
-               'rep': True, 'crash_points': 2}
-        return [('N2x2-dev0', cfg, 7, 0, 0.3), ('N2x2-dev2', cfg, 6, 2, 0.7)]
-    cfg = {'salt': salt, 'keys': ('a', 'b'),
-           'maxgen': {'a': 2, 'b': 2},
-           'bad': {'a': (0,), 'b': (0, 1)},
-           'fin': ('exit', 'abort', 'oom'), 'late_tomb': True, 'boot': True,
-           'rep': True, 'crash_points': 3}
-    return [('N2x2-dev0', cfg, 10, 0, 0.25), ('N2x2-dev2', cfg, 9, 2, 0.75)]
+        cfg = dict(base, fin={'a': ('exit', 'abort'), 'b': ('oom',)},
+                   crash_points=2)
+        tomb = dict(tomb, fin={'a': ('exit',)})
+        return [('N2x2-dev0', cfg, 7, 0, 0.25),
+                ('N1x2-tomb', tomb, 8, 1, 0.15),
+                ('N2x2-dev2', cfg, 6, 2, 0.6)]
+    kinds = ('exit', 'abort', 'oom')
+    cfg = dict(base, fin={'a': kinds, 'b': kinds}, crash_points=3)
+    tomb = dict(tomb, fin={'a': ('exit',)})
+    return [('N2x2-dev0', cfg, 10, 0, 0.2),
+            ('N1x2-tomb', tomb, 10, 2, 0.15),
+            ('N2x2-dev2', cfg, 9, 2, 0.65)]
 
 
-RULE = ('BFS over histories of node events (cache put/del by eventmgr x '
-        '{notification delivered at once, queued}, FIFO delivery, .ready '
-        'flips, manager restart, node boot, container finish, cleanup '
-        'completion); non-trivial = distinct states in which two generations '
-        'of one instance coexist under apps/ (states_with_two_generations); '
-        'syncs with two generations and both iteration orders are counted '
-        'separately')
+RULE = ('BFS over histories of node events: cache file put / deleted / '
+        'replaced in place by eventmgr, each x {dirwatch notification '
+        'delivered at once, left in the FIFO (1 deviation), delivered and the '
+        'manager killed after its k-th link operation (1 deviation)}; FIFO '
+        'head delivery; .ready created/touched/deleted; manager restart; node '
+        'boot; container finish (exit/abort/oom) with the monitor move at once '
+        'or (config N1x2-tomb) later; completion of the cleanup of a given '
+        'link.  non-trivial = distinct expanded states in which two '
+        'generations of one instance coexist under apps/ '
+        '(states_with_two_generations); syncs with two generations and both '
+        'iteration orders are counted separately')
 
 ASSUMPTIONS = [
-    'appcfg.configure.configure replaced by a stand-in doing its observable '
-    'part (reads the event file, real gen_uniqueid/manifest_unique_name, '
-    'creates apps/<unique>/data, raises ContainerSetupError for manifests '
-    'marked bad, returns None when the event file is gone); runtime.finish '
-    'replaced by its last step (rmtree of the container directory); '
-    'supervisor.control_svscan is a no-op',
+    'seam: appcfg.configure.configure replaced by a stand-in doing its '
+    'observable part (reads the event file, real gen_uniqueid / '
+    'manifest_unique_name, creates apps/<unique>/data, raises '
+    'ContainerSetupError for manifests marked bad, returns None when the event '
+    'file is gone); runtime.get_runtime(...).finish() replaced by its last '
+    'step (rmtree of the container directory); supervisor.control_svscan is a '
+    'no-op; everything that moves a link is treadmill code (AppCfgMgr '
+    'handlers, fs.replace/symlink_safe, MonitorContainerCleanup.execute, '
+    'Cleanup.invoke)',
     'os.stat of cache files as seen by treadmill.appcfg is virtualised: '
     '(st_ino, st_ctime) is a function of (instance, generation, salt), so two '
     'generations get distinct unique ids; the salt is chosen per hash seed so '
     'that the set-iteration loop of _synchronize visits instance a older '
     'generation first and instance b newer generation first (both orders '
-    'measured > 0)',
-    'no threads, no inotify: the dirwatch queue is a FIFO kept by the harness; '
-    'cache files removed by the manager itself (failed configure) enqueue '
-    'their own deleted notification; a manager restart drops the queue; an '
-    'exception escaping a handler is a process crash followed by a restart',
-    'granularity: one handler call is atomic (the manager is single-threaded; '
-    'other processes only rename/unlink); preemption inside a handler is '
-    'outside',
-    'boot = run_real.sh (rm running/* cleanup/*, .ready removed) followed by '
-    'a fresh manager: the start-up case of the _synchronize docstring',
-    'bounds: 2 instances x <= 2 generations, <= 2 undelivered-notification '
-    'deviations per history, at most one unprocessed tombstone per instance',
+    'measured > 0, else the run fails as vacuous)',
+    'no threads, no inotify: the dirwatch queue is a FIFO kept by the harness '
+    '(created for IN_CREATE/IN_MOVED_TO, deleted for IN_DELETE, modified for a '
+    're-opened .ready; dot files other than .ready are ignored by the manager '
+    'and not queued); cache files removed by the manager itself (failed '
+    'configure) enqueue their own deleted notification; a manager restart '
+    'drops the queue; an exception escaping a handler is a process crash '
+    'followed by a restart (counted, not a verdict)',
+    'granularity: a handler call is atomic except for the enumerated crash '
+    'points (manager killed right after its k-th symlink/rename/unlink under '
+    'running/ or cleanup/, k <= crash_points); the every-state clauses are '
+    'evaluated after every handler call and at every crash point; links whose '
+    'name starts with a dot (temporary links of fs.symlink_safe) are not '
+    'links for s6-svscan / the cleanup service and are ignored by the oracle',
+    'boot = run_real.sh (rm -f running/* cleanup/*, .ready removed) followed '
+    'by a fresh manager: the start-up case of the _synchronize docstring',
+    'successors of a replay-built state are computed from a directory-tree + '
+    'field checkpoint of that replay instead of replaying the history once per '
+    'successor; every 97th successor is cross-checked against a full replay '
+    '(checkpoint_crosschecks), and every reported violation is re-executed '
+    'twice by full replay in fresh directories',
+    'pruned transitions (cannot change anything but the position of no-op '
+    'notifications): instance events crash-point variants while the manager is '
+    'inactive, touching .ready while it is active, restart of an inactive '
+    'manager with an empty queue',
+    'bounds: 2 instances x <= 2 generations, <= 2 deviations per history '
+    '(undelivered notification, crash point, lagging tombstone), at most one '
+    'unprocessed tombstone per instance; depth per configuration in '
+    'coverage.configs',
 ]
 
 
@@ -203,12 +251,12 @@ def _run(ctx):
         spec = NodeSpec(cfg)
         spent_share += share
         # what an earlier configuration did not use is passed on
-        cap = ctx.budget_s * 0.85 * spent_share - \
+        cap = ctx.budget_s * (0.7 if ctx.quick else 0.85) * spent_share - \
             (time.perf_counter() - t_start)
         res = statex.bfs(spec, depth, max_dev=max_dev, workers=ctx.workers,
                          time_cap=max(cap, 5.0),
                          progress=lambda m, n=name: ctx.log(n + ' ' + m),
-                         chunk=8)
+                         chunk=8, **BISIM)
         cov['states'] += res.states
         cov['transitions'] += res.transitions
         cov['configs'][name] = {
@@ -216,7 +264,8 @@ def _run(ctx):
             'depth_completed': res.depth_completed,
             'max_deviations': max_dev, 'states': res.states,
             'transitions': res.transitions, 'level_sizes': res.level_sizes,
-            'space_exhausted': res.exhausted, 'wall_s': round(res.wall_s, 1)}
+            'space_exhausted': res.exhausted, 'wall_s': round(res.wall_s, 1),
+            'bisim_pairs_checked': getattr(res, 'bisim_pairs', 0)}
         exhaustive = exhaustive and not res.caps_hit
         cov['caps_hit'].extend('%s: %s' % (name, c) for c in res.caps_hit)
         for k, v in res.stats.items():
@@ -239,17 +288,17 @@ def _run(ctx):
                                  for c in cov['configs'].values())
     cov['executions'] = cov['transitions']
     cov['traces_validated_against_impl'] = cov['transitions']
-    cov['evaluations'] = nt.get('events', 0)
+    cov['evaluations'] = cov['transitions'] + nt.get('syncs', 0)
     cov['distinct_nontrivial'] = nt.get('states_with_two_generations', 0)
-    cov['states_with_two_generations'] = nt.get(
-        'states_with_two_generations', 0)
     cov['rule'] = RULE
     cov['exhaustive'] = exhaustive
     cov['impl_exceptions'] = nt.get('impl_exceptions', 0)
     for k in ('states_with_two_generations', 'syncs_with_two_generations',
               'syncs_two_gens_older_first', 'syncs_two_gens_newer_first',
               'sync_unchanged_running_checked', 'sync_uncached_checked',
-              'sync_cached_checked', 'cleanups_completed', 'finishes'):
+              'sync_cached_checked', 'sync_finished_checked',
+              'cleanups_completed', 'finishes', 'boots',
+              'manager_killed_mid_handler', 'checkpoint_crosschecks'):
         if nt.get(k, 0) == 0:
             raise statex.HarnessError('vacuous run: counter %s is 0' % k)
     return {'coverage': cov, 'violations': violations,
